@@ -971,6 +971,19 @@ func (x *exec) apply(ev string) { //nolint:gocognit,cyclop
 			x.inbound("chandata-unbound-channel", wire.ChannelData(unboundChan, []byte(payload), true))
 		}
 	case "adv":
+		if a == "txfail" {
+			// to one millisecond after the oldest unanswered transaction has failed (7 transmissions, nothing answered)
+			if len(x.out) == 0 {
+				x.fail("harness:no-outstanding-transaction", "")
+
+				return
+			}
+			d := x.out[0].at.Add(txLife() + time.Millisecond).Sub(now)
+			if d < time.Millisecond {
+				d = time.Millisecond
+			}
+			a = d.String()
+		}
 		d, err := time.ParseDuration(a)
 		if err != nil {
 			x.fail("harness:bad-duration", "%s", a)
